@@ -26,9 +26,7 @@ use futures::{
 };
 use std::{collections::VecDeque, sync::Arc, time::SystemTime};
 
-use super::error::{InternalError, QuotaExceeded};
-
-const ERRMSG_HANDLE_DROPPED: &str = "Unable to complete async operation.";
+use super::error::QuotaExceeded;
 
 struct Session {
     awaiting_ack: VecDeque<(usize, oneshot::Sender<Result<RxPacket, MqttError>>)>,
@@ -109,6 +107,8 @@ where
     }
 
     // Returns Ok(true) when the connection has been closed gracefully and run() must return.
+    // Completing an operation whose future has been dropped by the caller is not an error,
+    // hence the results of the oneshot sends are ignored.
     async fn handle_message(
         tx: &mut TxPacketStream<TxStreamT>,
         connection: &mut Connection,
@@ -118,9 +118,7 @@ where
         match msg {
             ContextMessage::FireAndForget(msg) => {
                 if let Err(err) = Self::validate_packet_size(connection, msg.packet.as_ref()) {
-                    msg.response_channel
-                        .send(Err(err))
-                        .map_err(|_| InternalError::from(ERRMSG_HANDLE_DROPPED))?;
+                    msg.response_channel.send(Err(err)).ok();
                     return Ok(false);
                 }
 
@@ -128,18 +126,14 @@ where
                     msg.packet.first().map(|hdr| hdr >> 4) == Some(DisconnectTx::PACKET_ID);
 
                 tx.write(msg.packet.freeze().as_ref()).await?;
-                msg.response_channel
-                    .send(Ok(()))
-                    .map_err(|_| InternalError::from(ERRMSG_HANDLE_DROPPED))?;
+                msg.response_channel.send(Ok(())).ok();
 
                 // Nothing may follow the DISCONNECT packet.
                 return Ok(is_disconnect);
             }
             ContextMessage::AwaitAck(mut msg) => {
                 if let Err(err) = Self::validate_packet_size(connection, msg.packet.as_ref()) {
-                    msg.response_channel
-                        .send(Err(err))
-                        .map_err(|_| InternalError::from(ERRMSG_HANDLE_DROPPED))?;
+                    msg.response_channel.send(Err(err)).ok();
                     return Ok(false);
                 }
 
@@ -147,9 +141,7 @@ where
 
                 if packet_id == PublishTx::PACKET_ID {
                     if connection.send_quota == 0 {
-                        msg.response_channel
-                            .send(Err(QuotaExceeded.into()))
-                            .map_err(|_| InternalError::from(ERRMSG_HANDLE_DROPPED))?;
+                        msg.response_channel.send(Err(QuotaExceeded.into())).ok();
                         return Ok(false);
                     }
 
@@ -185,9 +177,7 @@ where
             }
             ContextMessage::Subscribe(msg) => {
                 if let Err(err) = Self::validate_packet_size(connection, msg.packet.as_ref()) {
-                    msg.response_channel
-                        .send(Err(err))
-                        .map_err(|_| InternalError::from(ERRMSG_HANDLE_DROPPED))?;
+                    msg.response_channel.send(Err(err)).ok();
                     return Ok(false);
                 }
 
@@ -291,9 +281,7 @@ where
                     utils::linear_search_by_key(&session.awaiting_ack, action_id)
                         .and_then(|pos| session.awaiting_ack.remove(pos))
                 {
-                    sender
-                        .send(Ok(rx_packet))
-                        .map_err(|_| InternalError::from(ERRMSG_HANDLE_DROPPED))?;
+                    sender.send(Ok(rx_packet)).ok();
                 }
             }
             RxPacket::Pubcomp(pubcomp) => {
@@ -311,9 +299,7 @@ where
                     utils::linear_search_by_key(&session.awaiting_ack, action_id)
                         .and_then(|pos| session.awaiting_ack.remove(pos))
                 {
-                    sender
-                        .send(Ok(rx_packet))
-                        .map_err(|_| InternalError::from(ERRMSG_HANDLE_DROPPED))?;
+                    sender.send(Ok(rx_packet)).ok();
                 }
             }
             RxPacket::Pubrec(pubrec) => {
@@ -334,9 +320,7 @@ where
                     utils::linear_search_by_key(&session.awaiting_ack, action_id)
                         .and_then(|pos| session.awaiting_ack.remove(pos))
                 {
-                    sender
-                        .send(Ok(rx_packet))
-                        .map_err(|_| InternalError::from(ERRMSG_HANDLE_DROPPED))?;
+                    sender.send(Ok(rx_packet)).ok();
                 }
             }
             RxPacket::Pubrel(pubrel) => {
@@ -354,9 +338,7 @@ where
                     utils::linear_search_by_key(&session.awaiting_ack, action_id)
                         .and_then(|pos| session.awaiting_ack.remove(pos))
                 {
-                    sender
-                        .send(Ok(other))
-                        .map_err(|_| InternalError::from(ERRMSG_HANDLE_DROPPED))?;
+                    sender.send(Ok(other)).ok();
                 }
             }
         }
